@@ -161,6 +161,192 @@ Theorem C15_legacy_skip_means_unrecorded_refuted :
 Proof. exact legacy_marbl_records_skipped. Qed.
 Print Assumptions C15_legacy_skip_means_unrecorded_refuted.
 
+(* ------------------------------------------------------------------ *)
+(* theorem audit round                                                  *)
+
+(* clause 1, field by field: what must not change *)
+Theorem C15_forwarded_fields_unchanged : forall lg skip m,
+  (lg = LMarbl -> skip = false -> m_nobody m = false) ->
+  let m' := fst (run_logger lg skip m) in
+  m_body m' = m_body m /\ m_cl m' = m_cl m /\ m_te m' = m_te m /\ m_nobody m' = m_nobody m /\
+  m_hdrs m' = m_hdrs m /\ m_trailers m' = m_trailers m /\ m_start m' = m_start m /\
+  m_host m' = m_host m /\ m_isreq m' = m_isreq m.
+Proof.
+  intros lg skip m G. cbv zeta. rewrite (forwarded_unchanged lg skip m G). repeat split.
+Qed.
+Print Assumptions C15_forwarded_fields_unchanged.
+
+(* a whole history through one logger: every message is left as it was,
+   whatever else is in the history; skipped exchanges are invisible in the
+   log; one exchange's result does not depend on its neighbours.  (Each
+   logger call works on a message owned by one goroutine; the loggers keep no
+   state that feeds back into messages.) *)
+Theorem C15_history_messages_unchanged : forall lg xs,
+  Forall (fun x => lg = LMarbl -> fst x = false -> m_nobody (snd x) = false) xs ->
+  fst (run_many lg xs) = map snd xs.
+Proof. exact run_many_unchanged. Qed.
+Print Assumptions C15_history_messages_unchanged.
+
+Theorem C15_history_skipped_invisible : forall lg xs,
+  snd (run_many lg xs) = snd (run_many lg (filter (fun x => negb (fst x)) xs)).
+Proof. exact run_many_skip_invisible. Qed.
+Print Assumptions C15_history_skipped_invisible.
+
+Theorem C15_exchanges_independent : forall lg pre x post,
+  nth_error (fst (run_many lg (pre ++ x :: post))) (List.length pre)
+  = Some (fst (run_logger lg (fst x) (snd x))).
+Proof. exact run_many_independent. Qed.
+Print Assumptions C15_exchanges_independent.
+
+Theorem C15_unskipped_exchange_recorded_once : forall lg m,
+  List.length (snd (run_logger lg false m)) = match lg with LSnap _ => 0%nat | _ => 1%nat end.
+Proof. exact records_when_not_skipped. Qed.
+Print Assumptions C15_unskipped_exchange_recorded_once.
+
+(* clause 2, specification side at full strength: the RFC-shaped reader
+   inverts the RFC-shaped writer for EVERY well-formed message, trailers or
+   not; the implementation's snapshot IS that writer's output exactly when
+   the Trailer map is nil (C15-K4 otherwise, refuted above). *)
+Theorem C15_spec_roundtrip : forall m,
+  wf_b m = true -> parse_spec (m_isreq m) (serialize_spec m) = Some (canon m).
+Proof. exact parse_serialize. Qed.
+Print Assumptions C15_spec_roundtrip.
+
+Theorem C15_snapshot_refines_spec_partial : forall legacy o m,
+  m_trailers m = None ->
+  v_full (fst (snapshot_gen legacy o m)) = true ->
+  v_message (fst (snapshot_gen legacy o m)) = serialize_spec m.
+Proof. exact snapshot_refines_serialize. Qed.
+Print Assumptions C15_snapshot_refines_spec_partial.
+
+Theorem C15_snapshot_refines_spec_refuted :
+  exists m, wf_b m = true /\ v_full (fst (snapshot default_opts m)) = true /\
+            v_message (fst (snapshot default_opts m)) <> serialize_spec m.
+Proof. exists ex_chunked. split; [|split]; vm_compute; [reflexivity | reflexivity | discriminate]. Qed.
+Print Assumptions C15_snapshot_refines_spec_refuted.
+
+(* totalisation: no decoder result is an artefact of fuel; Reader() is total
+   on every snapshot view *)
+Theorem C15_chunk_dec_never_out_of_fuel : forall s, chunk_dec s <> PFuel.
+Proof. exact chunk_dec_never_out_of_fuel. Qed.
+Print Assumptions C15_chunk_dec_never_out_of_fuel.
+
+Theorem C15_dechunk_never_out_of_fuel : forall s, snd (dechunk s) <> DNoFuel.
+Proof. exact dechunk_never_out_of_fuel. Qed.
+Print Assumptions C15_dechunk_never_out_of_fuel.
+
+Theorem C15_parse_hdrs_never_out_of_fuel : forall s, parse_hdrs (S (List.length s)) s <> PFuel.
+Proof. exact parse_hdrs_never_out_of_fuel. Qed.
+Print Assumptions C15_parse_hdrs_never_out_of_fuel.
+
+Theorem C15_reader_total : forall legacy o m dec, reader dec (fst (snapshot_gen legacy o m)) <> None.
+Proof. exact reader_total. Qed.
+Print Assumptions C15_reader_total.
+
+(* every view any logger builds partitions; who reads the body = who builds a full view *)
+Theorem C15_logger_views_partition : forall lg skip m v,
+  logger_view lg skip m = Some v ->
+  0 <= v_bodyoff v /\ v_bodyoff v <= v_troff v /\ v_troff v <= blen (v_message v) /\
+  exists h b t, hdr_r v = Some h /\ body_r v = Some b /\ trl_r v = Some t /\ h ++ b ++ t = v_message v.
+Proof. exact logger_view_sections. Qed.
+Print Assumptions C15_logger_views_partition.
+
+Theorem C15_reads_body_is_full_view : forall lg skip m,
+  reads_body lg skip m = match logger_view lg skip m with Some v => v_full v | None => false end.
+Proof. exact reads_body_spec. Qed.
+Print Assumptions C15_reads_body_is_full_view.
+
+(* oracle functions, one theorem per clause id the driver can print *)
+Theorem C15_oracle_forwarded_unchanged : forall m o,
+  forwarded_ok m o = true <-> ob_after o = m /\ ob_fwd_same o = true.
+Proof. exact forwarded_ok_iff. Qed.
+Print Assumptions C15_oracle_forwarded_unchanged.
+
+Theorem C15_oracle_sections_partition : forall o,
+  sections_ok o = true <->
+  (forall h b t full, ob_sections o = Some (h, b, t, full) ->
+     h ++ b ++ t = full /\ exists p, h = p ++ crlf ++ crlf).
+Proof. exact sections_ok_iff. Qed.
+Print Assumptions C15_oracle_sections_partition.
+
+Theorem C15_oracle_snapshot_parseable : forall m o,
+  reparse_ok m o = true <->
+  (forall r, ob_reparse o = Some r -> option_map canon r = Some (canon m)).
+Proof. exact reparse_ok_iff. Qed.
+Print Assumptions C15_oracle_snapshot_parseable.
+
+Theorem C15_oracle_skip_means_unrecorded : forall skip o,
+  skip_ok skip o = true <-> (skip = true -> ob_records o = 0%nat).
+Proof. exact skip_ok_iff. Qed.
+Print Assumptions C15_oracle_skip_means_unrecorded.
+
+Theorem C15_oracle_start_line : forall o,
+  startline_ok o = true <->
+  (forall snap ref, ob_startline o = Some (snap, ref) -> snap = ref).
+Proof. exact startline_ok_iff. Qed.
+Print Assumptions C15_oracle_start_line.
+
+Theorem C15_oracle_logger_error : forall o,
+  (negb (ob_err o) || ob_src_failed o)%bool = true <-> (ob_err o = true -> ob_src_failed o = true).
+Proof. exact error_clause_iff. Qed.
+Print Assumptions C15_oracle_logger_error.
+
+Theorem C15_oracle_failure_names_a_false_clause : forall skip m o,
+  c15_ok skip m o = false ->
+  forwarded_ok m o = false \/ sections_ok o = false \/ reparse_ok m o = false \/
+  skip_ok skip o = false \/ (ob_err o = true /\ ob_src_failed o = false) \/ startline_ok o = false.
+Proof. exact c15_not_ok_names_a_clause. Qed.
+Print Assumptions C15_oracle_failure_names_a_false_clause.
+
+(* the prediction the driver uses to tell a known logger error (K1) from a new one *)
+Theorem C15_logger_errors_iff : forall lg skip cls m,
+  logger_errors lg skip cls m = true <->
+  exists c, lg = LHar c /\ skip = false /\ m_isreq m = false /\ capture_on c m = true
+            /\ compress_active m = true /\ cls <> DecOk.
+Proof. exact logger_errors_iff. Qed.
+Print Assumptions C15_logger_errors_iff.
+
+(* the comparators the driver uses for model-vs-implementation are equality *)
+Theorem C15_comparators_decide_equality :
+  (forall a b, msg_eqb a b = true <-> a = b) /\ (forall a b, bytes_eqb a b = true <-> a = b).
+Proof. split; [exact msg_eqb_eq | exact bytes_eqb_eq]. Qed.
+Print Assumptions C15_comparators_decide_equality.
+
+(* Non-vacuity for the theorems with hypotheses *)
+Example C15_example_guards :
+  (* marbl guard of C15_forwarded_unchanged_partial / fields / history *)
+  (LMarbl = LMarbl -> false = false -> m_nobody ex_chunked = false)
+  /\ Forall (fun x => LMarbl = LMarbl -> fst x = false -> m_nobody (snd x) = false)
+            [(false, ex_chunked); (true, ex_empty_post); (false, ex_chunked_nt)]
+  (* wf trailers of C15_chunk_roundtrip *)
+  /\ forallb wf_hdr [(B "X-T", B "v"); (B "A-Trailer", B "1")] = true
+  (* C15_snapshot_start_line *)
+  /\ no_cr (m_start ex_chunked) = true
+  (* C15_spec_roundtrip with trailers, C15_snapshot_refines_spec_partial without *)
+  /\ wf_b ex_chunked = true /\ m_trailers ex_chunked <> None
+  /\ parse_spec true (serialize_spec ex_chunked) = Some (canon ex_chunked)
+  /\ m_trailers ex_chunked_nt = None /\ v_full (fst (snapshot default_opts ex_chunked_nt)) = true
+  (* C15_logger_error_only_har_response_capture / C15_logger_errors_iff *)
+  /\ logger_errors (LHar CapOn) false DecFailRead ex_gzip_response = true
+  (* C15_skipped_logger_never_reads_body *)
+  /\ (forall o, LHar CapOn <> LSnap o)
+  (* C15_logger_views_partition *)
+  /\ logger_view (LText false true) false ex_chunked <> None
+  (* a history: messages unchanged, skipped one invisible *)
+  /\ fst (run_many (LHar CapOn) [(false, ex_chunked); (true, ex_empty_post); (false, ex_chunked_nt)])
+     = [ex_chunked; ex_empty_post; ex_chunked_nt]
+  /\ snd (run_many (LHar CapOn) [(false, ex_chunked); (true, ex_empty_post); (false, ex_chunked_nt)])
+     = [RHar true; RHar true].
+Proof.
+  split; [reflexivity|].
+  split; [repeat constructor; cbn; intros; try reflexivity; discriminate|].
+  split; [vm_compute; reflexivity|]. split; [vm_compute; reflexivity|].
+  split; [vm_compute; reflexivity|]. split; [discriminate|].
+  split; [vm_compute; reflexivity|]. split; [reflexivity|]. split; [reflexivity|].
+  split; [vm_compute; reflexivity|]. split; [discriminate|]. split; [discriminate|].
+  split; vm_compute; reflexivity.
+Qed.
+
 (* Non-vacuity: a chunked request with a body and a trailer satisfies the
    hypotheses; its snapshot, byte for byte, and its re-parse. *)
 Example C15_example_wf : wf_b ex_chunked = true /\ wf_b ex_empty_post = true
